@@ -35,7 +35,7 @@ func init() {
 
 func checkC11(ck *Check) {
 	a := ck.A
-	if !ck.need("C11.R1", map[string]interface{}{"scan": a.Scan, "RunOnce": a.RunOnce, "dryMode": a.DryMode, "taint loop": a.TaintLoop, "untaint loop": a.UntaintLoop, "cloud step": a.CloudStep}) {
+	if !ck.need("C11.R1", map[string]interface{}{"scan": a.Scan, "RunOnce": a.RunOnce, "taint loop": a.TaintLoop, "untaint loop": a.UntaintLoop, "cloud step": a.CloudStep}) {
 		return
 	}
 	// R1: guards at action sites
@@ -106,18 +106,22 @@ func checkC11(ck *Check) {
 // scan-reachable code.
 func (ck *Check) dryPredicate(rule string) {
 	a := ck.A
-	ctx := ck.P.NewCtx(a.DryMode)
-	got := ctx.returnFormula(0)
-	gl, gr, err := ck.dryAtoms(a.DryMode)
-	if err != nil {
-		ck.undecided(rule, "dryMode/body", "", funcID(a.DryMode), "dryMode ≡ c.Opts.DryMode ∨ g.Opts.DryMode", err.Error())
-	} else {
-		want := Or(Atom(gl), Atom(gr))
-		okv, why, e2 := Equivalent(got, want)
-		if e2 != nil {
-			ck.undecided(rule, "dryMode/body", "", funcID(a.DryMode), want.String(), e2.Error())
+	if a.DryMode == nil {
+		// no separate predicate function: R1 already checks the guards against the two fields directly
+		ck.info("%s: no dry-mode predicate method found; the guards of R1 are decided on the fields themselves", rule)
+	} else if ctx := ck.P.NewCtx(a.DryMode); true {
+		got := ctx.returnFormula(0)
+		gl, gr, err := ck.dryAtoms(a.DryMode)
+		if err != nil {
+			ck.undecided(rule, "dryMode/body", "", funcID(a.DryMode), "dryMode ≡ c.Opts.DryMode ∨ g.Opts.DryMode", err.Error())
 		} else {
-			ck.cond(okv, rule, "dryMode/body", ck.P.position(a.DryMode.Pos()), funcID(a.DryMode), "dryMode(c,g) ⇔ "+want.String(), got.String(), "the dry-mode predicate is not the disjunction of the global flag and the group option: "+why)
+			want := Or(Atom(gl), Atom(gr))
+			okv, why, e2 := Equivalent(got, want)
+			if e2 != nil {
+				ck.undecided(rule, "dryMode/body", "", funcID(a.DryMode), want.String(), e2.Error())
+			} else {
+				ck.cond(okv, rule, "dryMode/body", ck.P.position(a.DryMode.Pos()), funcID(a.DryMode), "dryMode(c,g) ⇔ "+want.String(), got.String(), "the dry-mode predicate is not the disjunction of the global flag and the group option: "+why)
+			}
 		}
 	}
 	fGlobal := field(a.TOpts, "DryMode")
@@ -144,6 +148,67 @@ func (ck *Check) dryPredicate(rule string) {
 	}
 	if n == 0 {
 		ck.ok(rule, "dryMode/field-stores", "", "", "no store to Opts.DryMode / NodeGroupOptions.DryMode in code reachable from RunOnce", fmt.Sprintf("0 stores in %d reachable functions", len(reach)))
+	}
+	// wiring: main binds Opts.DryMode to the --drymode flag, NewController keeps the options it was given
+	if sp := ck.P.SSAPkg[pkgCmd]; sp != nil && sp.Func("main") != nil {
+		mainFn := sp.Func("main")
+		mctx := ck.P.NewCtx(mainFn)
+		okv := false
+		var got string
+		for _, b := range mainFn.Blocks {
+			for _, in := range b.Instrs {
+				if st, ok := in.(*ssa.Store); ok && fieldOfAddr(st.Addr) == fGlobal {
+					t := mctx.Term(st.Val)
+					got = t.String()
+					// *drymode where drymode is the package variable holding the kingpin flag
+					if t.Kind == "deref" && t.Args[0].Kind == "global" && strings.HasSuffix(t.Args[0].Name, ".drymode") {
+						okv = true
+					}
+				}
+			}
+		}
+		ck.cond(okv, rule, "main/drymode-flag", "", "cmd.main", "controller.Opts.DryMode is bound to the --drymode flag", got, "the master dry-mode switch is not honoured")
+		// the flag variable is the one registered under the name drymode
+		init := sp.Func("init")
+		okFlag := false
+		for _, b := range init.Blocks {
+			for _, in := range b.Instrs {
+				if c, ok := in.(*ssa.Call); ok && c.Common().StaticCallee() != nil && c.Common().StaticCallee().Name() == "Flag" && len(c.Common().Args) >= 1 {
+					if k, ok := c.Common().Args[0].(*ssa.Const); ok && k.Value != nil && k.Value.String() == `"drymode"` {
+						okFlag = true
+					}
+				}
+			}
+		}
+		ck.cond(okFlag, rule, "main/drymode-flag-registered", "", "cmd.init", "a flag named drymode is registered", "", "")
+	}
+	{
+		fn := a.NewController
+		ctx := ck.P.NewCtx(fn)
+		fOpts := field(a.TController, "Opts")
+		okv := false
+		var got string
+		for _, b := range fn.Blocks {
+			for _, in := range b.Instrs {
+				if st, ok := in.(*ssa.Store); ok && fieldOfAddr(st.Addr) == fOpts {
+					t := ctx.Term(st.Val)
+					got = t.String()
+					if ck.isParamStruct(t) || t.Kind == "param" {
+						okv = true
+					}
+					if t.Kind == "struct" {
+						// the DryMode component must be the parameter's
+						stT, _ := t.Typ.Underlying().(*types.Struct)
+						for i := 0; stT != nil && i < stT.NumFields(); i++ {
+							if stT.Field(i) == fGlobal && t.Args[i].Kind == "field" && t.Args[i].Args[0].Kind == "param" {
+								okv = true
+							}
+						}
+					}
+				}
+			}
+		}
+		ck.cond(okv, rule, "NewController/opts", "", funcID(fn), "the controller keeps the options (incl. DryMode) it was constructed with", got, "")
 	}
 }
 
